@@ -132,6 +132,8 @@ pub fn step_cc<N: Nd>(nd: &mut N, mask: u16, ch: u8) {
     let before = s;
     let d1 = nd.u8_le(127);
     let d2 = nd.u8_le(127);
+    #[cfg(not(kani))]
+    nd.capture(crate::attrib::Ctx::Cc14 { s, a, ch, d1, d2 });
     let out = s.feed(&RawShortMessage::control_change(chv(ch), cnv(d1), u7v(d2)));
     check_out_range(&out);
     let expect = spec_cc(&mut a, ch, d1, d2);
@@ -142,8 +144,8 @@ pub fn step_cc<N: Nd>(nd: &mut N, mask: u16, ch: u8) {
     if let Some(m) = &out {
         check!(m.channel().get() == ch, "C15 C08 reported message carries the channel of the input");
     }
-    check!(out3(out) == expect, "C08 C07 reports exactly the justified message (channel, MSB controller, 128 x MSB value + LSB value)");
-    check!(s == gen(&a), "C08 C15 C16 post-state is the state of the advanced observer (only the addressed channel changes)");
+    check!(out3(out) == expect, "C08 C15 [conformance] output equals the observer's: exactly the justified message (channel, MSB controller, 128 x MSB value + LSB value)");
+    check!(s == gen(&a), "C08 C15 C16 [conformance] post-state is the state of the advanced observer (only the addressed channel changes)");
     witness!(nd, out.is_some(), "reported");
     witness!(nd, d1 >= 32 && d1 < 64 && out.is_none(), "LSB without matching MSB");
     witness!(nd, d1 < 32, "MSB");
@@ -227,7 +229,7 @@ pub fn literal<N: Nd>(nd: &mut N, c1: u8, c2: u8) {
             let c = if kind == 0 { c1 } else { c2 };
             let out = s.feed(&RawShortMessage::control_change(chv(c), cnv(d1), u7v(d2)));
             let e = spec_cc(&mut a, c, d1, d2);
-            check!(out3(out) == e, "C08 C15 C17 literal history: output equals the observer's");
+            check!(out3(out) == e, "C08 literal history: output equals the observer's");
             if out.is_some() {
                 reported += 1;
             }
